@@ -273,13 +273,13 @@ def run_history(job, acc):
 
 
 def check_roundtrip(acc, desc, order=None):
+    """order: None | "rev" | "stale" (the writer was called once before the circuit's last in-place edit)."""
     import circuitgraph as cg
 
     case = {"kind": "roundtrip", "desc": desc, "order": order}
-    c = space.build(desc, order=order)
     acc.transitions += 1
     try:
-        text = cg.io.circuit_to_bench(c)
+        c, text = space.call_with_history(desc, cg.io.circuit_to_bench, order)
     except Exception as e:  # noqa: BLE001
         acc.violation("roundtrip", f"writer-raises:{common.exc_name(e)}", case, repr(e))
         return
@@ -322,6 +322,9 @@ def run_roundtrip(job, acc):
         acc.states += 1
         acc.nontrivial += 1
         check_roundtrip(acc, desc)
+        if (_idx // job["of"]) % 4 == 0:
+            acc.states += 1
+            check_roundtrip(acc, desc, order="stale")
         if any(x[1] in ("0", "1") for x in desc["nodes"]):
             acc.states += 1
             check_roundtrip(acc, desc, order="rev")   # constants / gates inserted before the inputs
